@@ -126,6 +126,12 @@ class Facts:
             cands = [g for g in self.fns.values()
                      if g.crate == crate and g.kind in ("Fn", "AssocFn") and not g.trait and g.name not in anchors
                      and signature(g) == sig]
+            if not cands:
+                # method <-> free function, or moved into a submodule: same parameter / return types, same last name
+                last = name.split("::")[-1]
+                cands = [g for g in self.fns.values()
+                         if g.crate == crate and g.kind in ("Fn", "AssocFn") and not g.trait and g.name not in anchors
+                         and g.name.split("::")[-1] == last and _strip_mod(signature(g)["sig"]) == _strip_mod(sig["sig"])]
             if len(cands) == 1:
                 res = cands[0]
                 self.notes.append("anchor %s not found by name; resolved by signature to %s (%s)" % (name, res.name, res.loc))
@@ -145,6 +151,13 @@ class Facts:
     def adt(self, name):
         a = self.adts.get(name)
         if a is None:
+            # a type that was moved into another module of its crate keeps its own name: unique match on the last segment
+            crate, last = name.split("::", 1)[0], name.split("::")[-1]
+            cands = [(n, d) for n, d in self.adts.items() if n.split("::", 1)[0] == crate and n.split("::")[-1] == last]
+            if len(cands) == 1:
+                self.notes.append("type %s not found by path; resolved to %s" % (name, cands[0][0]))
+                self.adts[name] = cands[0][1]
+                return cands[0][1]
             raise KeyError("anchor missing: ADT %s" % name)
         return a
 
@@ -193,6 +206,11 @@ class Facts:
                 if g is not None:
                     stack.append(g)
         return seen
+
+
+def _strip_mod(sig):
+    """type strings without module paths (a moved item prints its neighbours' paths differently)"""
+    return [_re.sub(r"\b(?:[a-z_][a-z0-9_]*::)+", "", x) for x in sig]
 
 
 def signature(fn):
